@@ -31,6 +31,9 @@ ASSUMPTIONS = [
     "search ORDER under sortedby/groupedby is C14's subject: here only the sets are compared",
     "FuzzyTerm is not used in delete_by_query (C19 owns its semantics)",
 ]
+import contextlib
+import random
+
 SHARDS = {"quick": 4, "thorough": 16}
 BUDGET_S = {"quick": 80, "thorough": 800}
 FLOORS = {
@@ -231,7 +234,31 @@ class Comparer(object):
         eq = self.eq
         eq("Index.doc_count", len(live), ix.doc_count())
         ixall = ix.doc_count_all()
-        with ix.searcher() as s:
+        # one searcher lives through the whole history and is refresh()ed after every commit / cancel: half of the comparisons
+        # read through it instead of a newly opened searcher (re-used segment readers must carry the current deletions)
+        ll = getattr(self, "_longlived", None)
+        if ll is not None and getattr(self, "_ll_fields", None) != sorted(m.fields):
+            # the schema changed (add_field / remove_field): a refreshed searcher may keep segment readers made with the
+            # schema object of their time - what refresh() promises across schema changes is not this property's subject
+            try:
+                ll.close()
+            except Exception:  # noqa
+                pass
+            ll = None
+        self._ll_fields = sorted(m.fields)
+        self._longlived = ix.searcher() if ll is None else ll.refresh()
+        use_ll = ll is not None and random.Random("c07-ll:%r" % rng.random()).random() < 0.5
+        if use_ll:
+            self.ctx.count("c07.compares_through_refreshed_searcher")
+
+        @contextlib.contextmanager
+        def _pick():
+            fresh = ix.searcher()
+            try:
+                yield self._longlived if use_ll else fresh
+            finally:
+                fresh.close()
+        with _pick() as s:
             r = s.reader()
             eq("reader.doc_count", len(live), r.doc_count())
             eq("searcher.doc_count", len(live), s.doc_count())
@@ -408,6 +435,12 @@ class History(object):
 
     def close(self):
         import shutil
+        try:
+            ll = getattr(self.cmp, "_longlived", None)
+            if ll is not None:
+                ll.close()
+        except Exception:  # noqa
+            pass
         try:
             self.ix.close()
             self.st.close()
